@@ -3199,7 +3199,10 @@ def do_tie(name, repo, lean_dir):
             # a generated module that this one calls (e.g. Results -> Queries) is regenerated first
             if imp.startswith("ArtapModel.Gen.") and imp.split(".")[-1] in SPECS:
                 do_gen(imp.split(".")[-1], repo, lean_dir)
-        res["source_blob"] = do_gen(name, repo, lean_dir)
+        # a tie-only module (`gen_of`): theorems that compose another module's tie with model-level theorems; what is
+        # regenerated is that module's Gen file
+        gname = SPECS[name].get("gen_of", name)
+        res["source_blob"] = do_gen(gname, repo, lean_dir)
         res["generated"] = True
     except Unsupported as e:
         res["detail"] = "py2lean: unsupported: %s" % e
@@ -3213,7 +3216,7 @@ def do_tie(name, repo, lean_dir):
         return res
     thms, src = tie_theorems(lean_dir, name)
     res["theorems"] = thms
-    with open(gen_path(lean_dir, name), encoding="utf-8") as f:
+    with open(gen_path(lean_dir, gname), encoding="utf-8") as f:
         gsrc = strip_comments(f.read())
     m = FORBIDDEN.search(src) or FORBIDDEN.search(gsrc)
     if m:
@@ -3273,11 +3276,12 @@ def main():
         if a.gen not in SPECS:
             print("py2lean: unknown name %s" % a.gen, file=sys.stderr)
             return 2
+        gname = SPECS[a.gen].get("gen_of", a.gen)      # tie-only module: its generated file is another module's
         try:
             if a.stdout:
-                sys.stdout.write(generate(a.gen, repo)[0])
+                sys.stdout.write(generate(gname, repo)[0])
             else:
-                do_gen(a.gen, repo, a.lean_dir)
+                do_gen(gname, repo, a.lean_dir)
         except Unsupported as e:
             print("py2lean: unsupported: %s" % e, file=sys.stderr)
             return 3
